@@ -1,7 +1,7 @@
 (* The same statements loaded through parse_ntriples_and_add, parse_nquads_and_add and parse_n3 give the
    same denotation (corollary of the three loader theorems; Turtle and RDF/XML are not covered). *)
 Require Import KV.Codec13.Model KV.Codec13.Spec KV.Codec13.Wf KV.Codec13.Classes KV.Codec13.Inv.
-Require Import KV.Codec13.WfTtl KV.Codec13.NtProofs KV.Codec13.N3Proofs KV.Codec13.TtlProofs.
+Require Import KV.Codec13.WfTtl KV.Codec13.NtProofs KV.Codec13.N3Proofs KV.Codec13.TtlProofs KV.Codec13.TtlListProofs.
 Require Import Lia.
 
 Lemma formats_agree : forall (doc : list item) (x : db),
@@ -60,6 +60,8 @@ Proof.
   destruct (ntriples_1000 doc x Hnt Hr Hx Hb') as [_ A].
   destruct (nquads_main doc x (wf_nt_nq doc Hnt) Hr Hx Hb') as [_ B].
   pose proof (n3_main doc x Hn3 Hk Hx) as C.
-  destruct (ttl_main doc x Httl Hx Hp Hb) as [_ D].
+  assert (Hb2 : next_id (d_dict x) + 4 * N.of_nat (length (quads_from (d_pref x) doc)) <= QBIT)
+    by (rewrite (quads_env_irrelevant doc (d_pref x) Hnt); exact Hb').
+  destruct (ttl_main doc x Httl Hx Hp Hb2) as [_ D].
   rewrite A, B, C, D. rewrite (quads_env_irrelevant doc (d_pref x) Hnt). repeat split; intro; assumption.
 Qed.
